@@ -74,6 +74,9 @@ fn run_chain(ctx: &mut Ctx, c: &Value) -> Result<(), (String, String)> {
     let unit = c["unit"].as_i64().unwrap_or(1);
     let tnow = c["now"].as_i64().unwrap();
     let now = if tnow % unit == 0 { time_of(tnow / unit) } else { time_of(tnow.div_euclid(unit)) + chrono::TimeDelta::try_milliseconds(500).unwrap() };
+    // the evaluation instant reaches the library the way some caller might have obtained it: built, or read from text in any zone
+    static NTH: std::sync::atomic::AtomicUsize = std::sync::atomic::AtomicUsize::new(0);
+    let now = crate::pki::respell(now, NTH.fetch_add(1, std::sync::atomic::Ordering::SeqCst));
     let certs = c["certs"].as_array().unwrap();
     let mut issuer: Option<ResourceCert> = None;
     for (i, e) in certs.iter().enumerate() {
